@@ -1,4 +1,9 @@
 import CanvasProofs.C01
+import CanvasGen.SweepF
+import CanvasProofs.Lemmas.C02Column
+import CanvasProofs.Lemmas.C02Verdict
+import CanvasProofs.Lemmas.C02Trace
+import CanvasProofs.Lemmas.C02Endpoints
 
 /-! # C02 — Settle preserves the filled region and returns a canonical simple path (partial)
 
@@ -7,7 +12,13 @@ subject's fill changes across it, for each of the four rules); rule-independence
 paths (winding ∈ {0,1} ⇒ NonZero, EvenOdd and Positive agree, Negative fills nothing); implicit
 closing does not change the specification's winding number; the column induction and the
 specification laws are shared with C01. The sweep and the tracer are refined against the exact
-specification on generated inputs (region, winding ∈ {0,1}, no proper crossings, re-settling). -/
+specification on generated inputs (region, winding ∈ {0,1}, no proper crossings, re-settling).
+
+Second wave (sections A–D below): Settle along a column as a function (region preservation,
+winding ∈ {0,1}, alternation, canonical output, idempotence — for all columns, all rules, incl.
+columns rewritten by `mergeOverlapping`); soundness, completeness, tolerance monotonicity and
+symmetries of the verdict function that judges real outputs; soundness of the checker of the real
+final sweep/tracer state and the tracer's hole rule. -/
 namespace C02
 open Canvas GenK Canvas.Wn
 
@@ -72,5 +83,284 @@ theorem settle_windings_are_crossing_sums (col : List C01.Seg) (pre below : List
   exact (Prod.mk.inj this).1
 
 example : (0 : Int) = 0 ∨ (0 : Int) = 1 := Or.inl rfl
+
+/-! ## A. the hand-written Settle decision is the generated one; the driver's copy is the proved one -/
+
+/-- the model's `keep` is the Settle row of the generated `InResult`, open segments included -/
+theorem keep_is_inResult (r : Wn.Rule) (s : C01.Seg) (f : C01.Fields) (hc : s.clipping = false) :
+    SweepPoint.InResult (⟨s.clipping, s.open_, f.osw, f.ow, f.sw, f.w⟩ : SweepPoint ℚ) opSettle (C01.ruleOf r)
+      = if Canvas.C02.keep r s f then 1 else 0 := by
+  cases ho : s.open_
+  · rw [inResult_settle _ r (by simpa using ho)]
+    simp [Canvas.C02.keep, ho, C01.below, C01.above, hc]
+  · rw [inResult_settle_open _ r (by simpa using ho)]
+    simp [Canvas.C02.keep, ho]
+
+/-- the executable `InResult` the drivers run (group Sweep, Float mode) and the one the theorems
+are about (field mode) are the same function -/
+theorem driver_inResult_is_proved_inResult (c o : Bool) (osw ow sw w op rule : Int) :
+    GenF.SweepPoint.InResult (⟨c, o, osw, ow, sw, w⟩ : GenF.SweepPoint Float) op rule
+      = GenK.SweepPoint.InResult (⟨c, o, osw, ow, sw, w⟩ : GenK.SweepPoint ℚ) op rule := rfl
+
+/-! ## B. Settle along a column -/
+section Column
+open Canvas.C02 Canvas.C01
+
+/-- `computeSweepFields` folded up any column of subject segments establishes the Settle invariant -/
+theorem settle_invariant_of_sweep (col : List Seg) (hc : ∀ s ∈ col, s.clipping = false) :
+    GoodS (foldColumn col) ∧ OpenZero (foldColumn col) := goodS_foldColumn col hc
+
+/-- `mergeOverlapping` anywhere in a column keeps the Settle invariant of the whole column (the
+entries above the run included), given that coincident segments agree on being vertical and the
+first segment that is not absorbed is not vertical and itself correct -/
+theorem settle_invariant_merge (above : List (Seg × Fields)) (s : C01Merge.Ent) (below : List C01Merge.Ent)
+    (hg : GoodS (above ++ C01Merge.pairs (s :: below)))
+    (hv : ∀ p ∈ below, p.geom = s.geom → p.seg.vertical = s.seg.vertical)
+    (hp : ∀ p rest', (C01Merge.absorb s below).2.2 = p :: rest' →
+      p.seg.vertical = false ∧ p.f.w = (sums (C01Merge.pairs rest')).1) :
+    GoodS (above ++ C01Merge.pairs ((C01Merge.merge s below).s :: (C01Merge.merge s below).below)) :=
+  goodS_congr_below above _ _ (C01Merge.merge_sums s below hv).symm
+    (goodS_merge s below (goodS_suffix above _ hg) hp) hg
+
+/-- REGION PRESERVATION ALONG A COLUMN. In a column with the Settle invariant (any height, any
+self windings — merged overlapping segments included), for each of the four rules, at every
+height: if every kept edge is directed with the filled side on its left (`resSW`), the winding
+number of the result is 1 exactly where the input is filled under the rule, and 0 elsewhere -/
+theorem column_region_preserved (r : Wn.Rule) (pre L : List (Seg × Fields)) (h : GoodS (pre ++ L)) :
+    resSum r L = ind (r.fills (sums L).1) := resSum_region r L (goodS_suffix pre L h)
+
+/-- … in particular it is 0 or 1 (winding-01) -/
+theorem column_winding_01 (r : Wn.Rule) (pre L : List (Seg × Fields)) (h : GoodS (pre ++ L)) :
+    resSum r L = 0 ∨ resSum r L = 1 := resSum_01 r L (goodS_suffix pre L h)
+
+/-- the kept edges alternate: walking down from any height, the first boundary edge is directed
++1 iff the region above it is filled, every boundary edge flips that, and the walk ends unfilled -/
+theorem column_kept_edges_alternate (r : Wn.Rule) (pre L : List (Seg × Fields)) (h : GoodS (pre ++ L)) :
+    altDown (r.fills (sums L).1) (keptDirs r L) = true := altDown_keptDirs r L (goodS_suffix pre L h)
+
+/-- an edge has a non-zero direction in the canonical result iff Settle keeps it (closed edges) -/
+theorem column_kept_iff_boundary (r : Wn.Rule) (s : Seg) (f : Fields) (ho : s.open_ = false) :
+    keep r s f = true ↔ resSW r f ≠ 0 := by
+  simp only [keep, ho, resSW, ind]
+  cases r.fills f.w <;> cases r.fills (f.w + f.sw) <;> simp
+
+/-- for the real sweep: every column of subject segments, every rule, every height -/
+theorem sweep_column_region_preserved (r : Wn.Rule) (col : List Seg) (hc : ∀ s ∈ col, s.clipping = false)
+    (pre L : List (Seg × Fields)) (h : foldColumn col = pre ++ L) :
+    resSum r L = ind (r.fills (sums L).1) ∧ altDown (r.fills (sums L).1) (keptDirs r L) = true := by
+  have hg := (goodS_foldColumn col hc).1
+  rw [h] at hg
+  exact ⟨column_region_preserved r pre L hg, column_kept_edges_alternate r pre L hg⟩
+
+/-- Settle as a function on columns returns a column that (1) carries the crossing sums of its own
+edges (`Good`: sweeping it again recomputes the same fields), (2) is canonical: winding 0 or 1
+below and above every edge, directions ±1 consistent with the `increasing` flags, and (3) has the
+winding number 1 exactly where the input column is filled -/
+theorem column_result_canonical (r : Wn.Rule) (L : List (Seg × Fields)) (h : GoodS L) (ho : OpenZero L) :
+    Good (outCol r L) ∧ Canonical (outCol r L) ∧ (sums (outCol r L)).1 = ind (r.fills (sums L).1) :=
+  ⟨good_outCol r L h ho, canonical_outCol r L h ho, outCol_region r L h ho⟩
+
+/-- a canonical column is a fixed point of Settle under NonZero, EvenOdd and Positive: every edge
+is kept with its direction and fields -/
+theorem column_canonical_fixed_point (r : Wn.Rule) (hr : threeRules r) (L : List (Seg × Fields))
+    (hg : Good L) (hk : Canonical L) : outCol r L = L := outCol_fixed r hr L hg hk
+
+/-- … and has no boundary at all under Negative -/
+theorem column_canonical_negative_empty (L : List (Seg × Fields)) (hk : Canonical L) :
+    keptDirs .negative L = [] := keptDirs_negative L hk
+
+/-- IDEMPOTENCE ALONG A COLUMN: settling (any rule r) a column of subject segments, feeding the
+result's segments to the sweep again and settling with NonZero, EvenOdd or Positive gives back the
+same column: same edges, same directions, same winding fields -/
+theorem column_settle_idempotent (r r' : Wn.Rule) (hr : threeRules r') (col : List Seg)
+    (hc : ∀ s ∈ col, s.clipping = false) :
+    settleCol r' (segsOf (settleCol r col)) = settleCol r col := by
+  obtain ⟨hg, ho⟩ := goodS_foldColumn col hc
+  have h1 := good_outCol r _ hg ho
+  have h2 := canonical_outCol r _ hg ho
+  unfold settleCol
+  rw [refold _ h1 h2]
+  exact outCol_fixed r' hr _ h1 h2
+
+end Column
+
+/-! ## C. the verdict function that judges real Settle outputs -/
+section Verdict
+open Canvas.C02
+
+/-- SOUNDNESS: verdict ok ⇒ for every query point farther than δ from input and result the result
+(read NonZero) fills it iff the input fills it under the rule, and its winding number in the result
+is 0 or 1; no two result segments cross by more than δ; every query point is accounted for -/
+theorem verdict_sound (rule : Wn.Rule) (P R : List (List IPt)) (pts : List IPt) (d2 : Int) (c k : Nat)
+    (h : verdict rule P R pts d2 = .ok c k) :
+    (∀ p ∈ pts, judged P R d2 p = true →
+      rule.fills (wn p P) = Wn.Rule.nonZero.fills (wn p R) ∧ (wn p R = 0 ∨ wn p R = 1)) ∧
+    NoCross d2 (allSegs R) ∧ c + k = pts.length := by
+  obtain ⟨⟨h1, h2⟩, h3⟩ := verdict_ok_sound rule P R pts d2 c k h
+  exact ⟨h1, h2, h3⟩
+
+/-- COMPLETENESS: an observation that satisfies the predicate is never reported -/
+theorem verdict_complete (rule : Wn.Rule) (P R : List (List IPt)) (pts : List IPt) (d2 : Int)
+    (h : Holds rule P R pts d2) : ∃ c k, verdict rule P R pts d2 = .ok c k :=
+  verdict_ok_complete rule P R pts d2 h
+
+/-- a judged point that passes reads the same under NonZero, EvenOdd and Positive (and is empty
+under Negative): the "fills the same region under the three rules" clause of the property -/
+theorem verdict_point_rule_independent (rule : Wn.Rule) (wp wr : Int) (h : PointOK rule wp wr) :
+    Wn.Rule.evenOdd.fills wr = Wn.Rule.nonZero.fills wr ∧ Wn.Rule.positive.fills wr = Wn.Rule.nonZero.fills wr ∧
+      Wn.Rule.negative.fills wr = false := by
+  obtain ⟨a, b, c⟩ := pointOK_rules_agree rule wp wr h
+  exact ⟨by rw [a, h.1], by rw [b, h.1], c⟩
+
+/-- MONOTONE IN THE TOLERANCE: accepted at δ ⇒ accepted at every δ' ≥ δ -/
+theorem verdict_tolerance_monotone (rule : Wn.Rule) (P R : List (List IPt)) (pts : List IPt) (d d' : Int)
+    (hd : d ≤ d') (c k : Nat) (h : verdict rule P R pts d = .ok c k) :
+    ∃ c' k', verdict rule P R pts d' = .ok c' k' :=
+  verdict_ok_complete rule P R pts d' (holds_mono rule P R pts d d' hd (verdict_ok_sound rule P R pts d c k h).1)
+
+/-- symmetries of the judgement of one point: reversing the input does not matter under NonZero and
+EvenOdd, and exchanges Positive and Negative -/
+theorem verdict_point_symmetries (wp wr : Int) :
+    pointClass .nonZero (-wp) wr = pointClass .nonZero wp wr ∧
+    pointClass .evenOdd (-wp) wr = pointClass .evenOdd wp wr ∧
+    pointClass .positive (-wp) wr = pointClass .negative wp wr :=
+  ⟨pointClass_input_reversed _ (Or.inl rfl) wp wr, pointClass_input_reversed _ (Or.inr rfl) wp wr,
+   pointClass_positive_negative wp wr⟩
+
+end Verdict
+
+/-! ## D. the final sweep state of real runs and the tracer's hole rule -/
+section Trace
+open Canvas.C02 Canvas.C01
+
+/-- a prev-chain of the real final sweep state accepted by the checker satisfies the Settle
+invariant, hence region preservation and winding-01 hold along it at every height -/
+theorem trace_chain_sound (r : Wn.Rule) (pre L : List TEnt) (h : chainCheck r (pre ++ L) = none) :
+    GoodS (tpairs L) ∧ resSum r (tpairs L) = ind (r.fills (colSum (tpairs L))) ∧
+      altDown (r.fills (colSum (tpairs L))) (keptDirs r (tpairs L)) = true := by
+  have hk : ChainOK r L := by
+    have := (chainCheck_none_iff r _).mp h
+    clear h
+    induction pre with
+    | nil => exact this
+    | cons x pre ih => exact ih this.2
+  have hg := chainOK_goodS r L hk
+  have hs := colSum_eq_sums _ (chainOK_clipping r L hk)
+  rw [hs]
+  exact ⟨hg, resSum_region r _ hg, altDown_keptDirs r _ hg⟩
+
+/-- an accepted traced closed edge leaves the tracer with the direction of the canonical result,
+is kept by the Settle decision, and where its direction could be observed in the returned path it
+is that direction -/
+theorem trace_edge_direction (r : Wn.Rule) (e : TEnt) (below : List TEnt) (h : chainCheck r (e :: below) = none)
+    (ho : e.overlapped = false) (ht : e.traced = true) (hop : e.seg.open_ = false) :
+    keep r e.seg e.f = true ∧ dirOfRW e.rw = resSW r e.f ∧ (e.dir = 0 ∨ e.dir = resSW r e.f) := by
+  have hk := ((chainCheck_none_iff r _).mp h).1
+  exact ⟨by rw [← (entry_live hk ho).2]; exact ht, traced_direction hk ho ht hop, (entry_traced hk ho ht hop).2⟩
+
+/-- HOLE RULE: with `resultWindings = depth + [traversed left-to-right]` and the contour reversed iff
+its depth is odd, an edge ends up running left-to-right iff its `resultWindings` is odd — for every
+depth and both traversal directions -/
+theorem tracer_hole_rule (d : Int) (right : Bool) :
+    dirOfRW (tracerRW d right) = if finalRight d right then 1 else -1 := tracer_direction d right
+
+/-- consequently a contour whose first edge lies directly above a region that the result fills
+(odd nesting depth below it) is a hole and is reversed, and one above an unfilled region is not -/
+theorem tracer_reverses_iff_filled_below (d : Int) : finalRight d true = (d % 2 == 0) := by
+  rcases Int.emod_two_eq d with h | h <;> simp [finalRight, h]
+
+end Trace
+
+/-! ## E. operand preparation (`AddPathEndpoints`) -/
+section Endpoints
+open Canvas.C02 Canvas.C01
+
+/-- every sweep segment of a closed subpath is closed, every segment of an open subpath is open
+(no closing edge is ever added for the subject), and all are subject segments -/
+theorem endpoints_open_flag (seg : Nat) (verts : List IPt) (closed : Bool) :
+    ∀ e ∈ addPathEndpoints seg verts closed, e.flags.open_ = !closed ∧ e.flags.clipping = false :=
+  epChain_open (!closed) seg _
+
+/-- a closed contour crosses every vertical line that passes through none of its vertices as often
+left-to-right as right-to-left — for every contour, self-intersecting or not -/
+theorem closed_contour_balanced (c : Int) (seg : Nat) (verts : List IPt) (h : ∀ v ∈ verts, v.x ≠ c) :
+    crossSum c (addPathEndpoints seg verts true) = 0 := crossSum_closed c seg verts h
+
+/-- the flags `AddPathEndpoints` stores say the same: a segment crossing the line is not vertical
+and the self winding `computeSweepFields` derives from `increasing` is its crossing direction -/
+theorem endpoint_flags_are_crossing_direction (c : Int) (seg : Nat) (a b : IPt)
+    (h : crossDir c (mkEP false seg a b) ≠ 0) :
+    (mkEP false seg a b).flags.vertical = false ∧ selfW (mkEP false seg a b).flags = crossDir c (mkEP false seg a b) :=
+  crossDir_flags c seg a b h
+
+/-- hence, in a column whose crossing sum is 0 (any column cut out of closed contours by
+`closed_contour_balanced`), the result of Settle is unfilled above the topmost edge, for every rule:
+the kept edges pair up, the topmost one is directed −1 -/
+theorem balanced_column_closes (r : Wn.Rule) (L : List (Seg × Fields)) (h : GoodS L) (h0 : (sums L).1 = 0) :
+    resSum r L = 0 ∧ altDown false (keptDirs r L) = true := by
+  have h1 := resSum_region r L h
+  have h2 := altDown_keptDirs r L h
+  rw [h0, fills_zero] at h1 h2
+  exact ⟨by simpa [ind] using h1, h2⟩
+
+end Endpoints
+
+/-! ## non-vacuity -/
+section NonVacuity
+open Canvas.C02 Canvas.C01
+
+/-- a column with a doubly wound region: two upward edges, then two downward ones -/
+def exCol : List Seg := [⟨false, false, true, false⟩, ⟨false, false, true, false⟩, ⟨false, true, true, false⟩,
+  ⟨false, false, false, false⟩, ⟨false, false, false, false⟩]
+
+example : ∀ s ∈ exCol, s.clipping = false := by decide
+example : keptDirs .nonZero (foldColumn exCol) = [-1, 1] := by decide
+example : keptDirs .evenOdd (foldColumn exCol) = [-1, 1, -1, 1] := by decide
+example : (settleCol .nonZero exCol).length = 2 ∧ (settleCol .evenOdd exCol).length = 4 := by decide
+example : settleCol .positive (segsOf (settleCol .evenOdd exCol)) = settleCol .evenOdd exCol := by decide
+/-- a merged entry (|sw| = 2) between winding −1 and +1: kept under Positive, dropped under NonZero -/
+example : keep .positive ⟨false, false, true, false⟩ ⟨-1, 0, 2, 0⟩ = true ∧
+    keep .nonZero ⟨false, false, true, false⟩ ⟨-1, 0, 2, 0⟩ = false := by decide
+example : GoodS [(⟨false, false, true, false⟩, ⟨-1, 0, 2, 0⟩), (⟨false, false, false, false⟩, ⟨0, 0, -1, 0⟩)] := by
+  simp [GoodS, sums, contrib]
+example : threeRules .evenOdd := Or.inr (Or.inl rfl)
+/-- a chain on which `mergeOverlapping` really merges (the receiver absorbs the coincident edge
+below it and carries self winding 2 afterwards) and which meets every hypothesis of
+`settle_invariant_merge` -/
+def exS : C01Merge.Ent := ⟨⟨false, false, true, false⟩, 1, false, ⟨0, 0, 1, 0⟩⟩
+def exBelow : List C01Merge.Ent :=
+  [⟨⟨false, false, true, false⟩, 1, false, ⟨-1, 0, 1, 0⟩⟩, ⟨⟨false, false, false, false⟩, 2, false, ⟨0, 0, -1, 0⟩⟩]
+example : (C01Merge.merge exS exBelow).touched = true ∧ (C01Merge.merge exS exBelow).s.f = ⟨-1, 0, 2, 0⟩ := by decide
+example : GoodS ([] ++ C01Merge.pairs ((C01Merge.merge exS exBelow).s :: (C01Merge.merge exS exBelow).below)) := by
+  apply settle_invariant_merge [] exS exBelow
+  · simp [GoodS, C01Merge.pairs, exS, exBelow, sums, contrib]
+  · decide
+  · intro p rest' h
+    have : (C01Merge.absorb exS exBelow).2.2 = [⟨⟨false, false, false, false⟩, 2, false, ⟨0, 0, -1, 0⟩⟩] := by decide
+    rw [this] at h
+    obtain ⟨rfl, rfl⟩ := List.cons.inj h
+    exact ⟨rfl, rfl⟩
+/-- the verdict accepts the unit square settled to itself, judged at its centre (coordinates ×2) -/
+example : verdict .nonZero [[⟨0, 0⟩, ⟨4, 0⟩, ⟨4, 4⟩, ⟨0, 4⟩]] [[⟨0, 0⟩, ⟨4, 0⟩, ⟨4, 4⟩, ⟨0, 4⟩]] [⟨2, 2⟩, ⟨9, 9⟩, ⟨0, 1⟩] 1
+    = .ok 2 1 := by decide
+/-- … and rejects the same square returned clockwise under Positive -/
+example : verdict .positive [[⟨0, 0⟩, ⟨4, 0⟩, ⟨4, 4⟩, ⟨0, 4⟩]] [[⟨0, 4⟩, ⟨4, 4⟩, ⟨4, 0⟩, ⟨0, 0⟩]] [⟨2, 2⟩] 1
+    = .failPoint "winding-not-01" 0 1 (-1) := by decide
+/-- a two-edge chain as the tracer leaves it: bottom edge depth 0 traversed rightwards, top edge leftwards -/
+example : chainCheck .nonZero [⟨⟨false, false, false, false⟩, ⟨1, 0, -1, 0⟩, false, true, 0, -1⟩,
+    ⟨⟨false, false, true, false⟩, ⟨0, 0, 1, 0⟩, false, true, 1, 1⟩] = none := by decide
+/-- … and the same chain with the top edge's nesting count off by one is rejected -/
+example : chainCheck .nonZero [⟨⟨false, false, false, false⟩, ⟨1, 0, -1, 0⟩, false, true, 1, 0⟩,
+    ⟨⟨false, false, true, false⟩, ⟨0, 0, 1, 0⟩, false, true, 1, 1⟩] = some ("nesting-parity", 0) := by decide
+
+/-- a self-intersecting closed contour (a bow tie) and a line through no vertex -/
+example : crossSum 1 (addPathEndpoints 0 [⟨0, 0⟩, ⟨2, 2⟩, ⟨2, 0⟩, ⟨0, 2⟩] true) = 0 := by decide
+example : (addPathEndpoints 0 [⟨0, 0⟩, ⟨2, 2⟩, ⟨2, 0⟩, ⟨0, 2⟩] true).map (crossDir 1) = [1, 0, -1, 0] := by decide
+/-- the same vertices as an open subpath: no closing edge, the crossings do not balance -/
+example : crossSum 1 (addPathEndpoints 0 [⟨0, 0⟩, ⟨2, 2⟩, ⟨2, 0⟩] false) = 1 := by decide
+example : crossDir 1 (mkEP false 1 ⟨0, 0⟩ ⟨2, 2⟩) ≠ 0 := by decide
+example : (sums (foldColumn exCol)).1 = 0 := by decide
+
+end NonVacuity
 
 end C02
